@@ -1459,6 +1459,14 @@ class Interp:
         if c is not None and c.stmt_hints and fr.func is self.current_target:
             text = None
             text_loop = None
+            if c.ghost_updates:
+                text = ast.unparse(st)
+                for htext, sets in c.ghost_updates:
+                    if htext == text:
+                        sf_ = self.spec_frame(fr)
+                        vals_ = [(g_, self.ev(e_, sf_)) for g_, e_ in sets]
+                        for g_, v_ in vals_:
+                            fr.locals[g_] = v_
             for htext, uses, checks in c.stmt_hints:
                 if text is None:
                     text = ast.unparse(st)
@@ -1768,6 +1776,17 @@ class Interp:
             for n in ast.walk(st.target):
                 if isinstance(n, ast.Name):
                     assigned.add(n.id)
+        c_ = self.current_contract
+        if c_ is not None and c_.ghost_updates:
+            texts = set()
+            for b in body_nodes:
+                for n in ast.walk(b):
+                    if isinstance(n, ast.stmt):
+                        texts.add(ast.unparse(n))
+            for htext, sets in c_.ghost_updates:
+                if htext in texts:
+                    for g_, _e in sets:
+                        assigned.add(g_)
         return assigned, mutated
 
     def havoc_loop_state(self, st, fr, tag):
